@@ -165,3 +165,220 @@ Proof.
       destruct (p =? q); [|discriminate].
       destruct (IH (Some (p, s)) total ns Hw n Hin) as [H|H]; [left; exact H | right; right; exact H].
 Qed.
+
+(** * Frame grids: sorting, de-duplication, strict monotonicity *)
+Fixpoint incr (lo : Z) (l : list Z) : Prop :=
+  match l with [] => True | t :: r => lo < t /\ incr t r end.
+Fixpoint nondecr (lo : Z) (l : list Z) : Prop :=
+  match l with [] => True | t :: r => lo <= t /\ nondecr t r end.
+
+Lemma incr_weaken l : forall lo lo', lo' <= lo -> incr lo l -> incr lo' l.
+Proof. destruct l as [|t r]; cbn; intros; [exact I | intuition lia]. Qed.
+
+Lemma incr_lower l : forall lo t, incr lo l -> In t l -> lo < t.
+Proof.
+  induction l as [|x r IH]; intros lo t Hi Hin; [destruct Hin|].
+  destruct Hi as [Hx Hr]. destruct Hin as [<-|Hin]; [exact Hx|].
+  specialize (IH x t Hr Hin). lia.
+Qed.
+
+Lemma insert_In x l y : In y (insert x l) <-> y = x \/ In y l.
+Proof.
+  induction l as [|z r IH]; cbn [insert].
+  - cbn. intuition.
+  - destruct (x <=? z); cbn [In]; [intuition|]. rewrite IH. intuition.
+Qed.
+
+Lemma isort_In l y : In y (isort l) <-> In y l.
+Proof.
+  induction l as [|x r IH]; cbn [isort]; [reflexivity|].
+  rewrite insert_In, IH. cbn. intuition.
+Qed.
+
+Lemma insert_nondecr x l : forall lo, lo <= x -> nondecr lo l -> nondecr lo (insert x l).
+Proof.
+  induction l as [|z r IH]; intros lo Hlo Hn; cbn [insert].
+  - cbn. auto.
+  - destruct Hn as [Hz Hr]. destruct (x <=? z) eqn:E.
+    + cbn. repeat split; auto; lia.
+    + cbn [nondecr]. split; [exact Hz|]. apply IH; [lia | exact Hr].
+Qed.
+
+Lemma isort_nondecr l : forall lo, (forall y, In y l -> lo <= y) -> nondecr lo (isort l).
+Proof.
+  induction l as [|x r IH]; intros lo H; cbn [isort]; [exact I|].
+  apply insert_nondecr; [apply H; left; reflexivity|].
+  apply IH. intros y Hy. apply H. right. exact Hy.
+Qed.
+
+Lemma uniq_from_incr l : forall prev, nondecr prev l -> incr prev (uniq_from prev l).
+Proof.
+  induction l as [|x r IH]; intros prev Hn; cbn [uniq_from]; [exact I|].
+  destruct Hn as [Hx Hr]. destruct (prev <? x) eqn:E.
+  - cbn. split; [lia | apply IH; exact Hr].
+  - assert (x = prev) by lia. subst x. apply IH. exact Hr.
+Qed.
+
+Lemma uniq_from_In l : forall prev y, In y (uniq_from prev l) -> In y l.
+Proof.
+  induction l as [|x r IH]; intros prev y H; cbn [uniq_from] in H; [destruct H|].
+  destruct (prev <? x); [destruct H as [<-|H]; [left; reflexivity|]|]; right; eapply IH; exact H.
+Qed.
+
+Lemma uniq_from_complete l : forall prev y, nondecr prev l -> In y l -> y = prev \/ In y (uniq_from prev l).
+Proof.
+  induction l as [|x r IH]; intros prev y Hn Hin; [destruct Hin|].
+  destruct Hn as [Hx Hr]. cbn [uniq_from]. destruct (prev <? x) eqn:E.
+  - destruct Hin as [<-|Hin]; [right; left; reflexivity|].
+    destruct (IH x y Hr Hin) as [->|H]; right; [left; reflexivity | right; exact H].
+  - assert (x = prev) by lia. subst x.
+    destruct Hin as [<-|Hin]; [left; reflexivity | apply IH; assumption].
+Qed.
+
+Lemma uniq_sorted l lo : nondecr lo l -> (forall y, In y l -> lo < y) ->
+  incr lo (uniq l) /\ forall y, In y (uniq l) <-> In y l.
+Proof.
+  destruct l as [|x r]; intros Hn Hlo; cbn [uniq]; [split; [exact I | reflexivity]|].
+  destruct Hn as [Hx Hr]. split.
+  - cbn. split; [apply Hlo; left; reflexivity | apply uniq_from_incr; exact Hr].
+  - intros y. cbn [In]. split.
+    + intros [<-|H]; [left; reflexivity | right; eapply uniq_from_In; exact H].
+    + intros [<-|H]; [left; reflexivity|].
+      destruct (uniq_from_complete r x y Hr H) as [->|H']; [left; reflexivity | right; exact H'].
+Qed.
+
+(* sorted + de-duplicated selection of [l] by a predicate that implies [lo < t] *)
+Lemma uniq_isort_filter (f : Z -> bool) l lo :
+  (forall t, f t = true -> lo < t) ->
+  incr lo (uniq (isort (filter f l))) /\
+  forall t, In t (uniq (isort (filter f l))) <-> In t l /\ f t = true.
+Proof.
+  intros Hf.
+  assert (Hin : forall y, In y (isort (filter f l)) -> lo < y).
+  { intros y Hy. rewrite isort_In, filter_In in Hy. apply Hf. apply Hy. }
+  destruct (uniq_sorted (isort (filter f l)) lo) as [Hi Hu].
+  - apply isort_nondecr. intros y Hy. rewrite filter_In in Hy. specialize (Hf y (proj2 Hy)). lia.
+  - exact Hin.
+  - split; [exact Hi|]. intros t. rewrite Hu, isort_In, filter_In. reflexivity.
+Qed.
+
+(** ** chord frames *)
+Lemma interior_beats_spec beats total :
+  incr 0 (interior_beats beats total) /\
+  forall t, In t (interior_beats beats total) <-> In t beats /\ 0 < t < total.
+Proof.
+  unfold interior_beats.
+  destruct (uniq_isort_filter (fun t => (0 <? t) && (t <? total)) beats 0) as [Hi Hu].
+  - intros t H. apply andb_prop in H. lia.
+  - split; [exact Hi|]. intros t. rewrite Hu. rewrite andb_true_iff, Z.ltb_lt, Z.ltb_lt. reflexivity.
+Qed.
+
+Lemma frame_times_beats_incr beats total : incr (-1) (frame_times_beats beats total).
+Proof. cbn. split; [lia | apply interior_beats_spec]. Qed.
+
+Lemma frame_times_fixed_from spc : 0 < spc -> forall n a,
+  incr (Z.of_nat a * spc - 1) (map (fun k => Z.of_nat k * spc) (seq a n)).
+Proof.
+  intros Hs. induction n as [|n IH]; intros a; cbn [seq map incr]; [exact I|].
+  split; [lia|]. eapply incr_weaken; [|apply IH]. nia.
+Qed.
+
+Lemma frame_times_fixed_incr spc n : 0 < spc -> incr (-1) (frame_times_fixed spc n).
+Proof. intros Hs. apply (frame_times_fixed_from spc Hs n 0%nat). Qed.
+
+Lemma frame_times_fixed_nth spc n k : (k < n)%nat -> nth k (frame_times_fixed spc n) 0 = Z.of_nat k * spc.
+Proof.
+  intros Hk. unfold frame_times_fixed.
+  set (f := fun k => Z.of_nat k * spc).
+  rewrite nth_indep with (d' := f O) by (rewrite map_length, seq_length; exact Hk).
+  rewrite (map_nth f (seq 0 n) O k), seq_nth by exact Hk. reflexivity.
+Qed.
+
+Lemma incr_combine ts : forall lo (fs : list Z), incr lo ts -> strictly_increasing lo (combine ts fs).
+Proof.
+  induction ts as [|t r IH]; intros lo fs Hi; [exact I|].
+  destruct fs as [|f fs]; [exact I|]. destruct Hi as [Ht Hr]. cbn. split; [exact Ht | apply IH; exact Hr].
+Qed.
+
+Lemma sublist_In {A} (l m : list A) : sublist l m -> forall x, In x l -> In x m.
+Proof.
+  induction 1; intros y Hy; [destruct Hy | right; auto |].
+  destruct Hy as [<-|Hy]; [left; reflexivity | right; auto].
+Qed.
+
+(** Everything the property says about the chord annotations, for any frame grid
+    that is strictly increasing. *)
+Theorem chords_written_wf times figs lo :
+  incr lo times ->
+  let frames := combine times figs in
+  let w := chords_written times figs in
+  sublist w frames /\                                        (* at most one per frame, in frame order *)
+  (forall t f, In (t, f) w -> In t times) /\                 (* on frame boundaries *)
+  strictly_increasing lo w /\                                (* times strictly increasing *)
+  adjacent_differ None w /\                                  (* consecutive symbols differ *)
+  (forall t f, In (t, f) frames -> in_force None w t = Some f).  (* reading back gives the inferred path *)
+Proof.
+  intros Hi frames w. unfold w, chords_written. fold frames.
+  pose proof (incr_combine times lo figs Hi) as Hs. fold frames in Hs.
+  split; [apply write_chords_sublist|]. split; [|split; [|split]].
+  - intros t f Hin. apply (sublist_In _ _ (write_chords_sublist frames None)) in Hin.
+    unfold frames in Hin. apply in_combine_l in Hin. exact Hin.
+  - apply write_chords_increasing. exact Hs.
+  - apply write_chords_differ.
+  - apply write_chords_in_force with (lo := lo). exact Hs.
+Qed.
+
+(** ** melody frames *)
+Lemma event_times_spec starts ends total :
+  (forall t, In t (starts ++ ends) -> 0 <= t <= total) ->
+  incr 0 (event_times starts ends total) /\
+  forall t, In t (event_times starts ends total) <-> In t (starts ++ ends) /\ 0 < t < total.
+Proof.
+  intros Hr. unfold event_times.
+  set (f := fun t => negb (t =? 0) && negb (t =? total)).
+  set (g := fun t => (0 <? t) && (t <? total)).
+  assert (Hfg : filter f (starts ++ ends) = filter g (starts ++ ends)).
+  { apply filter_ext_in. intros t Ht. specialize (Hr t Ht). unfold f, g.
+    destruct (t =? 0) eqn:E1, (t =? total) eqn:E2, (0 <? t) eqn:E3, (t <? total) eqn:E4; cbn; try reflexivity; lia. }
+  rewrite Hfg.
+  destruct (uniq_isort_filter g (starts ++ ends) 0) as [Hi Hu].
+  - intros t H. unfold g in H. apply andb_prop in H. lia.
+  - split; [exact Hi|]. intros t. rewrite Hu. unfold g. rewrite andb_true_iff, Z.ltb_lt, Z.ltb_lt. reflexivity.
+Qed.
+
+Lemma incr_combine_ev ts : forall lo (es : list mev), incr lo ts -> times_increasing lo (combine es ts).
+Proof.
+  induction ts as [|t r IH]; intros lo es Hi; [destruct es; exact I|].
+  destruct es as [|e es]; [exact I|]. destruct Hi as [Ht Hr]. cbn. split; [exact Ht | apply IH; exact Hr].
+Qed.
+
+(** Everything the property says about the melody notes, for any strictly
+    increasing list of event times inside (0, total). *)
+Theorem melody_written_wf evs etimes total ns :
+  incr 0 etimes -> (forall t, In t etimes -> t < total) -> 0 < total ->
+  melody_written evs etimes total = Some ns ->
+  notes_ok 0 total ns /\
+  forall n, In n ns -> In (Onset (m_pitch n), m_start n) (combine evs (0 :: etimes)).
+Proof.
+  intros Hi Hlt Htot Hw. unfold melody_written in Hw. split.
+  - destruct evs as [|e evs]; [cbn in Hw; inversion Hw; exact I|].
+    cbn [combine] in Hw.
+    assert (Hinc : times_increasing 0 (combine evs etimes)) by (apply incr_combine_ev; exact Hi).
+    assert (Hlt' : forall e0 t0, In (e0, t0) (combine evs etimes) -> t0 < total).
+    { intros e0 t0 H. apply in_combine_r in H. apply Hlt. exact H. }
+    cbn [write_melody] in Hw. destruct e as [|q|q]; [| |discriminate].
+    + exact (write_melody_ok _ None 0 total ns Hinc I Hlt' Htot Hw).
+    + exact (write_melody_ok _ (Some (q, 0)) 0 total ns Hinc ltac:(cbn; lia) Hlt' Htot Hw).
+  - intros n Hn. destruct (write_melody_starts _ None total ns Hw n Hn) as [H|H]; [discriminate | exact H].
+Qed.
+
+Corollary melody_written_wf_sequence evs starts ends total ns :
+  (forall t, In t (starts ++ ends) -> 0 <= t <= total) -> 0 < total ->
+  melody_written evs (event_times starts ends total) total = Some ns ->
+  notes_ok 0 total ns /\
+  forall n, In n ns -> In (Onset (m_pitch n), m_start n) (combine evs (0 :: event_times starts ends total)).
+Proof.
+  intros Hr Htot. destruct (event_times_spec starts ends total Hr) as [Hi Hu].
+  apply melody_written_wf; [exact Hi | | exact Htot].
+  intros t Ht. apply Hu in Ht. lia.
+Qed.
